@@ -81,6 +81,10 @@ def random_tree(rng, n_nodes, flavour, max_group=2, allow_dummy=True):
                 b = make_basis("spin", f"s{cnt}")
             elif flavour == "spinqn":
                 b = make_basis("spinqn", f"s{cnt}")
+            elif flavour == "modes":
+                # oscillators only, two sizes, frequencies / origins drawn per mode: basis sets of the same class and size that differ in their parameters
+                # end up on the same node
+                b = make_basis("sho2" if cnt % 3 else "sho", f"v{cnt}", rng)
             else:  # holstein-like
                 b = make_basis("e" if cnt % 2 == 0 else ("sho2" if cnt % 4 == 1 else "sho"), f"{'e' if cnt % 2 == 0 else 'v'}{cnt}", rng)
             cnt += 1
